@@ -234,7 +234,7 @@ def run_property(eng, prop, args):
     for qual, cls in sorted(set(targets)):
         for f in target_splits(eng, qual, cls):
             split.append((qual, cls, tuple(sorted(f.items()))))
-    if prop in ('C19', 'all'):
+    if prop in ('C19', 'C05', 'all'):
         split.append(('static:copy', None, ()))
     gen = generate(eng, split, args.jobs)
     records = []
